@@ -651,7 +651,11 @@ class Gen:
                                     '\\mathrm{' + self.hid_txt() + '}', 'f(x)=0',
                                     # macros whose names merely start like a text macro: part of the formula
                                     '\\textstyle ' + self.hid_txt(), 'a\\textcolor{red}{' + self.hid_txt() + '}',
-                                    '\\textwidth ' + self.hid_txt() + '+\\mboxed{' + self.hid_txt() + '}']) + b)
+                                    '\\textwidth ' + self.hid_txt() + '+\\mboxed{' + self.hid_txt() + '}',
+                                    # environments inside the formula
+                                    'M=\\begin{pmatrix}1&' + self.hid_txt() + '\\\\3&4\\end{pmatrix}',
+                                    '\\begin{cases}' + self.hid_txt() + '&x>0\\end{cases}',
+                                    'a\\begin{zzmenv}' + self.hid_txt() + '\\end{zzmenv}+1']) + b)
         self.cur.append(('@I', st + 1, self.pos(), 'g:inline'))
 
     def k_display(self):
